@@ -2161,7 +2161,7 @@ class ExpressionEvaluator(Parser):
         elif op == "+":
             return +operand
         elif op == "!":
-            return not operand
+            return np.int64(not operand)
         elif op == "~":
             return ~operand
         else:
@@ -2172,10 +2172,11 @@ class ExpressionEvaluator(Parser):
         """
         Apply the specified binary operator: lhs op rhs
         """
+        # Logical, equality and relational operators yield the int 0 or 1.
         if op == "||":
-            return lhs or rhs
+            return np.int64(bool(lhs) or bool(rhs))
         elif op == "&&":
-            return lhs and rhs
+            return np.int64(bool(lhs) and bool(rhs))
         elif op == "|":
             return lhs | rhs
         elif op == "^":
@@ -2183,17 +2184,17 @@ class ExpressionEvaluator(Parser):
         elif op == "&":
             return lhs & rhs
         elif op == "==":
-            return lhs == rhs
+            return np.int64(lhs == rhs)
         elif op == "!=":
-            return lhs != rhs
+            return np.int64(lhs != rhs)
         elif op == "<":
-            return lhs < rhs
+            return np.int64(lhs < rhs)
         elif op == "<=":
-            return lhs <= rhs
+            return np.int64(lhs <= rhs)
         elif op == ">":
-            return lhs > rhs
+            return np.int64(lhs > rhs)
         elif op == ">=":
-            return lhs >= rhs
+            return np.int64(lhs >= rhs)
         elif op == "<<":
             return lhs << rhs
         elif op == ">>":
